@@ -14,10 +14,11 @@ PATH = os.path.join(HERE, "known_findings.json")
 
 
 def load():
-    if not os.path.exists(PATH):
-        return []
-    with open(PATH) as f:
-        return json.load(f)["entries"]
+    out = []
+    if os.path.exists(PATH):
+        with open(PATH) as f:
+            out += json.load(f)["entries"]
+    return out
 
 
 # --- signature predicates -----------------------------------------------------------------------
